@@ -2,7 +2,12 @@
 (***************************************************************************)
 (* C15: iterators and lazy keys()/values()/items() sequences interleaved   *)
 (* with mutations of the container (C flavour: BTreeItems / BTreeIter of   *)
-(* BTreeItemsTemplate.c; the range machinery is RangeImpl's).              *)
+(* BTreeItemsTemplate.c; the range machinery is RangeImpl's) and Python     *)
+(* flavour (`pcur`: _TreeItems of _base.py with its generator, the per-leaf *)
+(* generator expressions of _BucketBase.iterkeys/itervalues/iteritems that  *)
+(* capture the leaf's live lists, the cached length and the cached last     *)
+(* entry).  Both cursors are opened by the same Open and stepped by the     *)
+(* same steps; each is a deterministic function of the history.             *)
 (*                                                                         *)
 (* A cursor is a BTreeItems record it = [fb, first, lb, last] (leaf ids    *)
 (* and 1-based offsets) plus the parked position [b, off, p].  It holds    *)
@@ -23,23 +28,33 @@ CONSTANTS MaxUse,         \* bound on the number of steps after the cursor was o
 VARIABLES cur,            \* the cursor
           phase,          \* "build" | "use"
           nuse,           \* steps taken in phase "use"
-          out             \* outcome of the last cursor step (observation)
-ivars == <<heap, m, act, res, cur, phase, nuse, out>>
+          out,            \* outcome of the last cursor step (observation)
+          pcur,           \* the Python cursor
+          pout            \* its outcome
+ivars == <<heap, m, act, res, cur, phase, nuse, out, pcur, pout>>
 
 NoCur == [mode |-> "none", it |-> NoItems, b |-> Nil, off |-> 1, p |-> 0]
-CurRoots == {cur.it.fb, cur.it.lb, cur.b} \ {Nil}
+\* the generator of _TreeItems.__iter__: st "new" (no code has run yet) | "run" | "dead"; b the current leaf, inb
+\* whether a per-leaf generator expression is open on it, [i, e) the remaining 0-based range it was opened with,
+\* done the flag of the same name
+NoGen == [st |-> "dead", b |-> Nil, inb |-> FALSE, i |-> 0, e |-> 0, done |-> FALSE]
+NewGen(fb) == [st |-> "new", b |-> fb, inb |-> FALSE, i |-> 0, e |-> 0, done |-> FALSE]
+NoPCur == [mode |-> "none", fb |-> Nil, min |-> None, max |-> None, xmin |-> FALSE, xmax |-> FALSE,
+           g |-> NoGen, idx |-> 0 - 1, v |-> <<0, 0>>, plen |-> 0 - 1]
+CurRoots == {cur.it.fb, cur.it.lb, cur.b, pcur.fb, pcur.g.b} \ {Nil}
 \* collection with the cursor's leaves as additional roots
 GCc(h, roots) == LET r == Reach(h, ({Root} \cup roots) \cap DOMAIN h) IN [x \in r |-> h[x]]
 
 IInit == /\ Init
          /\ cur = NoCur /\ phase = "build" /\ nuse = 0 /\ out = <<"-">>
+         /\ pcur = NoPCur /\ pout = <<"-">>
 
 \* ---- mutations (BTreeImpl's operators; the heap keeps what the cursor holds)
 Mut(h2, m2, a) ==
   /\ heap' = GCc(h2, CurRoots)
   /\ m' = m2 /\ act' = a /\ res' = res
-  /\ out' = <<"-">>
-  /\ UNCHANGED cur
+  /\ out' = <<"-">> /\ pout' = <<"-">>
+  /\ UNCHANGED <<cur, pcur>>
 ISet(k, v) == Mut(SetR(heap, Root, k, v, FALSE).h, MapSet(m, k, v), [op |-> "setitem", k |-> k, v |-> v])
 IDel(k)    == LET r == DelR(heap, Root, k) IN
               Mut(IF r.st = 0 THEN heap ELSE r.h, IF k \in Dom(m) THEN MapDel(m, k) ELSE m, [op |-> "delitem", k |-> k, v |-> 0])
@@ -48,19 +63,87 @@ IPopMin    == Dom(m) # {} /\ LET k == ImplMinKey(heap) IN
 IClear     == Mut(EmptyTree @@ heap, EmptyMap, [op |-> "clear", k |-> 0, v |-> 0])
 \* (EmptyTree @@ heap: the root becomes empty, every other node is still there for the collection to decide)
 
+\* ---- Python flavour
+\* _BucketBase._range -> 0-based [start, end)
+PyRangeIdx(ks, min, max, xmin, xmax) ==
+  LET n == Len(ks)
+      start == IF min = None THEN (IF xmin THEN 1 ELSE 0)
+               ELSE IF Has(ks, min) THEN (Pos(ks, min) - 1) + (IF xmin THEN 1 ELSE 0)
+               ELSE Pos(ks, min) - 1
+      end == IF max = None THEN n - (IF xmax THEN 1 ELSE 0)
+             ELSE IF Has(ks, max) THEN (Pos(ks, max) - 1) + (IF xmax THEN 0 ELSE 1)
+             ELSE Pos(ks, max) - 1
+  IN IF n = 0 THEN <<0, 0>> ELSE <<start, end>>
+
+\* one next() of the generator: [g, out]; out is <<"entry", k, v>> | <<"stop">> | <<"IndexError">>
+\* (the per-leaf generator expression indexes the leaf's *live* lists: an index beyond their present length raises
+\* IndexError inside the generator, which is then finished)
+RECURSIVE PyGenNext(_, _, _, _)
+PyGenNext(h, pc, g, fuel) ==
+  IF g.st = "dead" \/ fuel = 0 THEN [g |-> [g EXCEPT !.st = "dead"], out |-> <<"stop">>]
+  ELSE IF ~g.inb
+    THEN IF g.b = Nil THEN [g |-> [g EXCEPT !.st = "dead"], out |-> <<"stop">>]
+         ELSE LET openMin == pc.xmin /\ pc.min = None
+                  openMax == pc.xmax /\ pc.max = None
+                  xm == pc.xmin /\ ~(openMin /\ g.b # pc.fb)
+                  xx == pc.xmax /\ ~(openMax /\ h[g.b].nx # Nil)
+                  r  == PyRangeIdx(h[g.b].ks, pc.min, pc.max, xm, xx)
+              IN PyGenNext(h, pc, [g EXCEPT !.st = "run", !.inb = TRUE, !.i = r[1], !.e = r[2]], fuel - 1)
+  ELSE IF g.i < g.e
+    THEN IF g.i + 1 > Len(h[g.b].ks)
+           THEN [g |-> [g EXCEPT !.st = "dead"], out |-> <<"IndexError">>]
+           ELSE [g |-> [g EXCEPT !.i = g.i + 1, !.done = FALSE], out |-> <<"entry", h[g.b].ks[g.i + 1], h[g.b].vs[g.i + 1]>>]
+  ELSE IF g.done THEN [g |-> [g EXCEPT !.st = "dead"], out |-> <<"stop">>]
+  ELSE PyGenNext(h, pc, [g EXCEPT !.inb = FALSE, !.b = h[g.b].nx, !.done = TRUE], fuel - 1)
+
+\* len(_TreeItems): a fresh, complete iteration, counted once and cached
+PyLenNow(h, pc) == Len(PyIter(h, pc.fb, pc.fb, pc.min, pc.max, pc.xmin, pc.xmax, FALSE, 200))
+PyLen(h, pc) == IF pc.plen >= 0 THEN pc.plen ELSE PyLenNow(h, pc)
+
+\* _TreeItems.__getitem__(i) after the negative index was resolved: advance self.it until self.index = i
+RECURSIVE PySeekTo(_, _, _, _)
+PySeekTo(h, pc, i, fuel) ==
+  IF i <= pc.idx \/ fuel = 0 THEN [pc |-> pc, out |-> <<"entry", pc.v[1], pc.v[2]>>]
+  ELSE LET r == PyGenNext(h, pc, pc.g, 400) IN
+       IF r.out[1] = "entry" THEN PySeekTo(h, [pc EXCEPT !.g = r.g, !.idx = pc.idx + 1, !.v = <<r.out[2], r.out[3]>>], i, fuel - 1)
+       ELSE [pc |-> [pc EXCEPT !.g = r.g], out |-> <<"IndexError">>]     \* StopIteration -> IndexError(i); IndexError as it is
+
+POpen(mode, min, max, xmin, xmax) ==
+  IF Len(heap[Root].kids) = 0 THEN [NoPCur EXCEPT !.mode = "empty"]      \* keys() of an empty tree is the empty tuple
+  ELSE LET b == IF min # None THEN FindLeaf(heap, Root, min) ELSE heap[Root].fb IN
+       [NoPCur EXCEPT !.mode = mode, !.fb = b, !.min = min, !.max = max, !.xmin = xmin, !.xmax = xmax, !.g = NewGen(b)]
+PNext ==
+  IF pcur.mode = "empty" THEN pout' = <<"stop">> /\ UNCHANGED pcur
+  ELSE LET r == PyGenNext(heap, pcur, pcur.g, 400) IN pout' = r.out /\ pcur' = [pcur EXCEPT !.g = r.g]
+PSeq(i0) ==
+  IF pcur.mode = "empty" THEN pout' = <<"IndexError">> /\ UNCHANGED pcur
+  ELSE LET n   == PyLen(heap, pcur)
+           pc0 == IF i0 < 0 THEN [pcur EXCEPT !.plen = n] ELSE pcur
+           i   == IF i0 < 0 THEN i0 + n ELSE i0
+       IN IF i < 0 THEN pout' = <<"IndexError">> /\ pcur' = pc0
+          ELSE LET pc1 == IF i < pc0.idx THEN [pc0 EXCEPT !.idx = 0 - 1, !.g = NewGen(pc0.fb)] ELSE pc0
+                   r   == PySeekTo(heap, pc1, i, 400)
+               IN pout' = r.out /\ pcur' = r.pc
+PLen ==
+  IF pcur.mode = "empty" THEN pout' = <<"len", 0>> /\ UNCHANGED pcur
+  ELSE LET n == PyLen(heap, pcur) IN pout' = <<"len", n>> /\ pcur' = [pcur EXCEPT !.plen = n]
+
 \* ---- opening a cursor
 Open(mode, min, max, xmin, xmax) ==
   LET it == CRange(heap, min, max, xmin, xmax) IN
   /\ cur' = [mode |-> mode, it |-> it, b |-> it.fb, off |-> it.first, p |-> 0]
   /\ act' = [op |-> "open", k |-> min, v |-> max, mode |-> mode, xmin |-> xmin, xmax |-> xmax]
-  /\ out' = <<"-">>
+  /\ out' = <<"-">> /\ pout' = <<"-">>
+  /\ pcur' = POpen(mode, min, max, xmin, xmax)
   /\ UNCHANGED <<heap, m, res>>
+
 
 \* ---- BTreeIter_next
 Far == 9999           \* currentoffset = INT_MAX after a size-change error (the error is sticky)
 INext ==
   /\ cur.mode = "iter"
   /\ act' = [op |-> "next", k |-> 0, v |-> 0]
+  /\ PNext
   /\ UNCHANGED <<heap, m, res>>
   /\ IF cur.b = Nil THEN out' = <<"stop">> /\ UNCHANGED cur
      ELSE LET ks == heap[cur.b].ks IN
@@ -75,6 +158,7 @@ INext ==
 ISeq(i0) ==
   /\ cur.mode = "seq"
   /\ act' = [op |-> "getitem", k |-> i0, v |-> 0]
+  /\ PSeq(i0)
   /\ UNCHANGED <<heap, m, res>>
   /\ LET i == IF i0 < 0 THEN i0 + CLen(heap, cur.it) ELSE i0
          r == CSeek(heap, cur.it, [b |-> cur.b, off |-> cur.off, p |-> cur.p], i) IN
@@ -85,12 +169,13 @@ ISeq(i0) ==
 ILen ==
   /\ cur.mode = "seq"
   /\ act' = [op |-> "len", k |-> 0, v |-> 0]
+  /\ PLen
   /\ out' = <<"len", CLen(heap, cur.it)>>
   /\ UNCHANGED <<heap, m, res, cur>>
 
 Bnd == {None} \cup Keys
 INextRel ==
-  \/ /\ phase = "build" /\ NextCore /\ UNCHANGED <<cur, phase, nuse, out>>
+  \/ /\ phase = "build" /\ NextCore /\ UNCHANGED <<cur, phase, nuse, out, pcur, pout>>
   \/ /\ phase = "build" /\ phase' = "use" /\ nuse' = 0 /\ Cardinality(Dom(m)) >= MinOpen
      /\ \E mode \in {"iter", "seq"}, min \in Bnd, max \in Bnd, xmin \in BOOLEAN, xmax \in BOOLEAN : Open(mode, min, max, xmin, xmax)
   \/ /\ phase = "use" /\ nuse < MaxUse /\ nuse' = nuse + 1 /\ UNCHANGED phase
@@ -103,10 +188,12 @@ ISpec == IInit /\ [][INextRel]_ivars
 
 \* ---- C15
 \* every step of the iteration yields some entry, ends the iteration, or raises RuntimeError / IndexError
-OutcomeOK == out[1] \in {"-", "entry", "stop", "RuntimeError", "IndexError", "len"}
+OutcomeOK == /\ out[1] \in {"-", "entry", "stop", "RuntimeError", "IndexError", "len"}
+             /\ pout[1] \in {"-", "entry", "stop", "IndexError", "len"}
 \* the cursor never looks outside a leaf's vectors and never at a leaf that is gone
 InBounds == /\ CurRoots \subseteq DOMAIN heap
             /\ out[1] = "entry" => out[2] \in Keys
+            /\ pout[1] = "entry" => pout[2] \in Keys
 \* the container itself: sound, and exactly the contents the mutations imply
 ContainerOK == /\ Contents(GC(heap)) = AbsKeys(m) /\ ContentsV(GC(heap)) = AbsVals(m)
                /\ LET h == GC(heap) IN
@@ -114,8 +201,8 @@ ContainerOK == /\ Contents(GC(heap)) = AbsKeys(m) /\ ContentsV(GC(heap)) = AbsVa
                     /\ \A id \in DOMAIN h : id # Root => NLen(h[id]) > 0
                     /\ InRange(h, Root, 0, 0)
 \* without mutations an iterator yields exactly the range, in order (ties the cursor to C02)
-IView == <<Render(heap, Root), cur, phase, nuse, [id \in CurRoots |-> heap[id]]>>
+IView == <<Render(heap, Root), cur, pcur, phase, nuse, [id \in CurRoots |-> heap[id]]>>
 
 \* spec -> code: every step of a simulated behaviour, in order
-DumpI == PrintT(<<"TR", ToJson([first |-> (act.op = "init"), phase |-> phase', n |-> nuse', act |-> act', out |-> out', to |-> Proj(GC(heap'), Root)])>>)
+DumpI == PrintT(<<"TR", ToJson([first |-> (act.op = "init"), phase |-> phase', n |-> nuse', act |-> act', out |-> out', pout |-> pout', to |-> Proj(GC(heap'), Root)])>>)
 =============================================================================
